@@ -14,7 +14,7 @@ from crosshair.core import deep_realize
 
 from vt import rt
 from vt.common import pick, make_hw, make_rb, StubDevice, tree_to_json
-from vt.space import S, P, count, unrank
+from vt.space import PB, S, P, count, unrank
 from vt.oracles import device as refdev
 
 META = {
@@ -131,6 +131,25 @@ b *
 """, [S(["node a"]), S(["nonegotiate"]), S(["undox k"]), S(["undock"]), S(["b k1"], [S(["noise n"]), S(["undone"])])],
     [S(["node a", "node a v"]), S(["nonegotiate"]), S(["notify g syslog"]), S(["undox k", "undox k v"]), S(["undock"]),
      S(["b k1"], [S(["noise n"]), S(["undone"])])])
+
+# %ordered rows that are BLOCKS: moved and edited inside in the same step
+fam("F9", """
+pm *
+    cl * %ordered
+        bw
+        ~
+""", [S(["pm k1"], [PB(["cl 1", "cl 2", "cl 3"], [S(["bw 40", "bw 45"])], maxlen=2)])],
+    [S(["pm k1"], [PB(["cl 1", "cl 2", "cl 3"], [S(["bw 40", "bw 45"]), S(["p"])])])])
+
+# two sibling block rules that both match one row: the sub-rules of both apply inside it
+fam("F10", """
+interface */(Vlan|Loopback)\\d+/
+    ip *
+interface *
+    description ~
+    mtu
+""", [S(["interface Vlan10"], [S(["ip a1", "ip a2"]), S(["description x", "description y"]), S(["mtu 1", "mtu 2"])]),
+      S(["interface Eth1"], [S(["description x"]), S(["mtu 1", "mtu 2"])])])
 
 BLOCK_VENDORS = ["huawei", "cisco", "nexus", "iosxr", "arista", "aruba", "b4com", "h3c", "optixtrans", "pc"]
 
@@ -365,7 +384,8 @@ def plan(tier):
                         bound="symbolic key/value strings len<=%d" % (2 if q else 3)))
     fams = [("F1a", "huawei", 12), ("F1b", "cisco", 10), ("F2", "huawei", 8), ("F3", "huawei,cisco", 6),
             ("F4", "huawei,iosxr", 4), ("F5", "huawei,arista", 4), ("F6", "huawei", 6),
-            ("F7", "huawei,cisco,pc" if q else ",".join(BLOCK_VENDORS), 12), ("F8", "huawei,cisco", 6)]
+            ("F7", "huawei,cisco,pc" if q else ",".join(BLOCK_VENDORS), 12), ("F8", "huawei,cisco", 6),
+            ("F9", "cisco,huawei", 6), ("F10", "cisco,huawei", 6)]
     for (f, vendors, shards) in fams:
         if not q:
             shards *= 3
